@@ -1,1 +1,246 @@
-/- C15: property theorems (not yet built). -/
+/- C15 — Command line, Rust API, C API and dependency lister agree.
+   Property theorems only (helper lemmas live in Proofs/Cli.lean, Proofs/CliDeps.lean). -/
+import JrsVerif.Proofs.Cli
+import JrsVerif.Proofs.CliDeps
+
+namespace JrsVerif.Cli
+
+/-- C15.1  `plumb_spec`, full strength: whatever the order and repetition of `--ext-*`/`--tla-*`
+    options, the setting a name ends up with is that of the strongest flavour naming it
+    (code-file > code > str-file > str), the last one given of that flavour. -/
+theorem plumb_lookup (opts : List VarOpt) (n : String) :
+    lookup (plumbVars opts) n = specLookup opts n :=
+  lookup_plumbVars opts n
+
+/-- C15.1  each option reaches the setting it names: an option whose name is given once becomes
+    exactly the variable kind of its flavour carrying exactly its payload (value, code or path). -/
+theorem plumb_spec (opts : List VarOpt) (o : VarOpt) (hm : o ∈ opts)
+    (huniq : ∀ o' ∈ opts, o'.name = o.name → o' = o) :
+    lookup (plumbVars opts) o.name = some (kindOf o.fl, o.payload) := by
+  rw [lookup_plumbVars]
+  unfold specLookup
+  cases hfl : o.fl with
+  | str =>
+    rw [lastOf_other .codeFile opts o (by simp [hfl]) huniq, lastOf_other .code opts o (by simp [hfl]) huniq,
+        lastOf_other .strFile opts o (by simp [hfl]) huniq]
+    have := lastOf_self opts o hm huniq
+    rw [hfl] at this; simp [this]
+  | strFile =>
+    rw [lastOf_other .codeFile opts o (by simp [hfl]) huniq, lastOf_other .code opts o (by simp [hfl]) huniq]
+    have := lastOf_self opts o hm huniq
+    rw [hfl] at this; simp [this]
+  | code =>
+    rw [lastOf_other .codeFile opts o (by simp [hfl]) huniq]
+    have := lastOf_self opts o hm huniq
+    rw [hfl] at this; simp [this]
+  | codeFile =>
+    have := lastOf_self opts o hm huniq
+    rw [hfl] at this; simp [this]
+
+/-- no setting appears from nowhere: a name no option mentions stays unset -/
+theorem plumb_absent (opts : List VarOpt) (n : String) (h : ∀ o ∈ opts, o.name ≠ n) :
+    lookup (plumbVars opts) n = none := by
+  rw [lookup_plumbVars]
+  have hl : ∀ fl, lastOf fl opts n = none := by
+    intro fl
+    unfold lastOf
+    have : (opts.filter (fun o => o.fl = fl)).reverse.find? (fun o => o.name = n) = none := by
+      rw [List.find?_eq_none]
+      intro x hx
+      have hx' := List.mem_reverse.mp hx
+      rw [List.mem_filter] at hx'
+      simpa using h x hx'.1
+    rw [this]; rfl
+  simp [specLookup, hl]
+
+/-- non-vacuity: a file flavour carries the *path*, not the name -/
+example :
+    let opts : List VarOpt := [⟨.strFile, "n", "/tmp/f"⟩, ⟨.str, "a", "1"⟩, ⟨.code, "a", "2"⟩, ⟨.str, "a", "3"⟩]
+    lookup (plumbVars opts) "n" = some (.importStr, "/tmp/f") ∧
+    lookup (plumbVars opts) "a" = some (.inlineCode, "2") := by
+  decide
+
+/-- C15.1  library paths: the right-most `-J` that has the file wins, `JSONNET_PATH` entries come
+    after every `-J`, left-most first. -/
+theorem paths_rightmost_wins (jpath env : List String) (has : String → Bool) :
+    (cliPaths jpath env).find? has = (jpath.reverse.find? has).or (env.find? has) := by
+  simp [cliPaths, List.find?_append]
+
+/-- C15.3  `jsonnet_jpath_add` called for `p₁ … pₙ` gives the search order of `-J p₁ … -J pₙ` -/
+theorem capi_paths_eq_cli (adds : List String) : capiPaths adds = cliPaths adds [] := by
+  have h : ∀ (acc : List String), adds.foldl (fun ps p => p :: ps) acc = adds.reverse ++ acc := by
+    induction adds with
+    | nil => simp
+    | cons a r ih => intro acc; simp [ih]
+  simp [capiPaths, cliPaths, h]
+
+/-- C15.1  output mode: each accepted combination of `-S`, `-f`, `-y`, `--line-padding` selects the
+    format it names, with the documented default paddings -/
+theorem format_spec (o : ManifestOpts) (h : o.accepted = true) :
+    (o.string = true → manifestFormat o = .stringFmt) ∧
+    (o.string = false → o.yamlStream = false → o.format = none →
+        manifestFormat o = .json (o.linePadding.getD 3)) ∧
+    (o.string = false → o.yamlStream = true → o.format = none →
+        manifestFormat o = .yamlStream (.yaml (o.linePadding.getD 2))) ∧
+    (∀ f, o.string = false → o.format = some f →
+        manifestFormat o =
+          (let b := match f with
+            | .string => Fmt.toStringFmt
+            | .json => .json (o.linePadding.getD 3)
+            | .yaml => .yaml (o.linePadding.getD 2)
+            | .toml => .toml (o.linePadding.getD 2)
+            | .xmlJsonml => .xml
+            | .ini => .ini
+           if o.yamlStream then .yamlStream b else b)) := by
+  obtain ⟨format, string, yamlStream, linePadding⟩ := o
+  refine ⟨?_, ?_, ?_, ?_⟩
+  · intro hs
+    simp only at hs; subst hs
+    cases yamlStream <;> simp_all [ManifestOpts.accepted, manifestFormat, baseFormat]
+  · intro hs hy hf
+    simp only at hs hy hf; subst hs hy hf
+    simp [manifestFormat, baseFormat]
+  · intro hs hy hf
+    simp only at hs hy hf; subst hs hy hf
+    simp [manifestFormat, baseFormat]
+  · intro f hs hf
+    simp only at hs hf; subst hs hf
+    cases f <;> cases yamlStream <;> simp [manifestFormat, baseFormat]
+
+/-- C15.2  `exit_status_iff_error`: whatever the output mode, the executable exits 0 exactly when
+    the library reports success, and writes to stderr exactly when it reports an error. -/
+theorem exit_status_iff_error (mode : Mode) (nl : Bool) (o : Outcome) :
+    ((render mode nl o).exit = 0 ↔ o.isOk mode = true) ∧
+    ((render mode nl o).stderr = true ↔ o.isOk mode = false) := by
+  cases o with
+  | err => simp [render, failed, Outcome.isOk]
+  | manErr => cases mode <;> simp [render, failed, Outcome.isOk]
+  | text t => cases mode <;> simp [render, failed, Outcome.isOk]
+  | fields fs =>
+    cases mode with
+    | stdout => simp [render, failed, Outcome.isOk]
+    | file p => simp [render, failed, Outcome.isOk]
+    | multi dir =>
+      simp only [render, Outcome.isOk]
+      exact renderFields_exit dir nl fs _ rfl rfl
+
+/-- C15.2  on success the standard output is exactly the manifestation followed by a newline
+    (nothing for an empty manifestation), and `-o` writes exactly that to the file. -/
+theorem stdout_is_manifestation (t : String) (nl : Bool) :
+    (render .stdout nl (.text t)).stdout = (if t.isEmpty then "" else t ++ "\n") ∧
+    (render .stdout nl (.text t)).files = [] ∧
+    ∀ p, (render (.file p) nl (.text t)) = { stdout := "", stderr := false, exit := 0, files := [(p, t ++ "\n")] } := by
+  simp [render]
+
+/-- C15.3  `framing_roundtrip` (multi): what a C consumer decodes from `multi_to_raw` is exactly
+    the list of (file name, text) pairs, for NUL-free strings and non-empty names. -/
+theorem framing_roundtrip (kvs : List (Bytes × Bytes))
+    (h : ∀ kv ∈ kvs, (∀ b ∈ kv.1, b ≠ 0) ∧ (∀ b ∈ kv.2, b ≠ 0) ∧ kv.1 ≠ []) :
+    decodeMulti (multiToRaw kvs) = kvs := by
+  cases kvs with
+  | nil => decide
+  | cons kv r =>
+    rw [multiToRaw_cons]
+    exact decode_flat (kv :: r) [] h
+
+/-- C15.3  `framing_roundtrip` (stream): same for `stream_to_raw`, non-empty NUL-free documents -/
+theorem framing_roundtrip_stream (vs : List Bytes)
+    (h : ∀ v ∈ vs, (∀ b ∈ v, b ≠ 0) ∧ v ≠ []) :
+    decodeStream (streamToRaw vs) = vs := by
+  cases vs with
+  | nil => decide
+  | cons v r =>
+    rw [streamToRaw_cons]
+    exact decode_flatS (v :: r) [] h
+
+/-- non-vacuity: two files, one with an empty text -/
+example : decodeMulti (multiToRaw [([97], [123, 125]), ([98, 46, 116], [])]) = [([97], [123, 125]), ([98, 46, 116], [])] := by
+  decide
+
+/-- the hypotheses are needed: an empty document truncates a stream for the consumer -/
+example : decodeStream (streamToRaw [[49], [], [50]]) = [[49]] := by decide
+
+end JrsVerif.Cli
+
+namespace JrsVerif.Deps
+
+/-- C15.4  `deps_eq_reachable`: when the lister succeeds, it lists exactly the targets of the
+    imports (of any kind) written in files reachable from the root through `import`, and no
+    reachable file is unreadable/unparsable or has an unresolvable import. Any recursion budget. -/
+theorem deps_eq_reachable (g : Graph) (fuel root : Nat) (deps vis : List Nat)
+    (h : collect g fuel root = .ok deps vis) :
+    (∀ t, t ∈ deps ↔ IsDep g root t) ∧ (∀ v, v ∈ vis ↔ Reach g root v) ∧ ¬ Bad g root := by
+  unfold collect at h
+  cases hg : g root with
+  | none => simp [hg] at h
+  | some es =>
+    simp only [hg] at h
+    have hfr : FromReachable g root es := ⟨root, es, Reach.refl, hg, fun _ hx => hx⟩
+    have p := loop_ok g root fuel es [] [root] deps vis h hfr
+    have hclosed : ∀ v, v ∈ vis → Closed g deps vis v := by
+      intro v hv
+      by_cases hr : v = root
+      · subst hr; exact ⟨es, hg, p.edges⟩
+      · exact p.closed v hv (by simpa using hr)
+    have hsound : ∀ v, v ∈ vis → Reach g root v := by
+      intro v hv
+      by_cases hr : v = root
+      · subst hr; exact Reach.refl
+      · exact p.visSound v hv (by simpa using hr)
+    have hcomplete : ∀ v, Reach g root v → v ∈ vis := by
+      intro v hv
+      induction hv with
+      | refl => exact p.visMono _ (List.mem_cons_self ..)
+      | step _ hga hmem hc ht ih =>
+        obtain ⟨es', hg', hall⟩ := hclosed _ ih
+        rw [hga] at hg'; cases hg'
+        obtain ⟨t, ht', _, hv'⟩ := hall _ hmem
+        rw [ht] at ht'; cases ht'
+        exact hv' hc
+    refine ⟨fun t => ⟨fun ht => p.depsSound t ht (by simp), ?_⟩, fun v => ⟨hsound v, hcomplete v⟩, ?_⟩
+    · rintro ⟨a, esA, e, hra, hga, hmem, ht⟩
+      obtain ⟨es', hg', hall⟩ := hclosed a (hcomplete a hra)
+      rw [hga] at hg'; cases hg'
+      obtain ⟨t', ht', hd, _⟩ := hall e hmem
+      rw [ht] at ht'; cases ht'
+      exact hd
+    · rintro ⟨a, hra, hbad⟩
+      obtain ⟨es', hg', hall⟩ := hclosed a (hcomplete a hra)
+      rcases hbad with hnone | ⟨esA, e, hga, hmem, ht⟩
+      · rw [hnone] at hg'; cases hg'
+      · rw [hga] at hg'; cases hg'
+        obtain ⟨t', ht', _, _⟩ := hall e hmem
+        rw [ht] at ht'; cases ht'
+
+/-- C15.4  the lister fails only for a reason: some reachable file is unreadable/unparsable or
+    contains an import that cannot be resolved. -/
+theorem deps_error_sound (g : Graph) (fuel root : Nat) (h : collect g fuel root = .bad) :
+    Bad g root := by
+  unfold collect at h
+  cases hg : g root with
+  | none => exact ⟨root, Reach.refl, Or.inl hg⟩
+  | some es =>
+    simp only [hg] at h
+    exact loop_bad g root fuel es [] [root] h ⟨root, es, Reach.refl, hg, fun _ hx => hx⟩
+
+/-- C15.4 corollary: every file an evaluation can load by following imports from the root is
+    listed (evaluation only ever loads the target of an import expression of a file whose code it
+    runs, i.e. of a reachable file). -/
+theorem loaded_subset_deps (g : Graph) (fuel root : Nat) (deps vis : List Nat)
+    (h : collect g fuel root = .ok deps vis) (a t : Nat) (es : List Edge) (e : Edge)
+    (hrun : Reach g root a) (hga : g a = some es) (hmem : e ∈ es) (ht : e.tgt = some t) :
+    t ∈ deps :=
+  ((deps_eq_reachable g fuel root deps vis h).1 t).mpr ⟨a, es, e, hrun, hga, hmem, ht⟩
+
+/-- non-vacuity: root 0 lists 1 by `importstr` first and `import`s it afterwards; 1 imports 2.
+    (The unrepaired lister returned `[1]` here.) -/
+example :
+    let g : Graph := fun n => match n with
+      | 0 => some [⟨false, some 1⟩, ⟨true, some 1⟩]
+      | 1 => some [⟨true, some 2⟩]
+      | 2 => some []
+      | _ => none
+    collect g 4 0 = .ok [2, 1] [2, 1, 0] := by
+  simp [collect, loop, ins]
+
+end JrsVerif.Deps
